@@ -1083,7 +1083,7 @@ class Verifier(Engine):
             return NONE_V
         cur = self.frame.contract
         if cur is not None and ".".join(qualname.split(".")[-2:]) in cur.prefer_ext:
-            ext = self.reg.contract_for("ext", ".".join(qualname.split(".")[-2:]))
+            ext = self.reg.contract_for("ext", cur.prefer_ext[".".join(qualname.split(".")[-2:])])
             if ext is not None:
                 return self.apply_contract(ext, selfv, args, kwargs, clsval=clsval)
         want_inline = cur is not None and (qualname in cur.inline or short in cur.inline)
